@@ -13,6 +13,7 @@ PROPS = {
         suite="params",
         modules=["CantoVerif.Props.C17"],
         theorems=[
+            "CV.later_failure_unchanged",
             "CV.Params.wrong_authority_rejected_unchanged", "CV.Params.handle_wrong_authority",
             "CV.Params.stored_params_valid_step", "CV.Params.stored_params_valid", "CV.Params.stored_params_valid_from_genesis",
             "CV.Params.legacy_route_valid", "CV.Params.legacy_frame",
